@@ -103,6 +103,40 @@ func runKeyType(ctx context.Context, out *vc.Out, r *vc.Rng, kt crypto.KeyType, 
 	}
 	foreign, err := identity.Generate(otherType)
 	must(err)
+	// key level: every signature the key makes verifies under it, whatever its length (the encodings of r and s vary), and
+	// none of them verifies for another message
+	{
+		nmsg := 3000
+		rejected, forged, first := 0, 0, ""
+		lens := map[int]int{}
+		for i := 0; i < nmsg; i++ {
+			msg := []byte(fmt.Sprintf("message %d under %s salt %d", i, kt, r.Intn(1<<30)))
+			sig, err := signer.PrivateKey().Sign(msg)
+			must(err)
+			lens[len(sig)]++
+			if ok, err := signer.PublicKey().Verify(msg, sig); err != nil || !ok {
+				rejected++
+				if first == "" {
+					first = fmt.Sprintf("message %q, signature of %d bytes: ok=%v err=%v", msg, len(sig), ok, err)
+				}
+			}
+			msg[0] ^= 1
+			if ok, _ := signer.PublicKey().Verify(msg, sig); ok {
+				forged++
+			}
+		}
+		line := out.Lines
+		out.Emit(fmt.Sprintf("keysweep %s %d", kt, nmsg), fmt.Sprintf("rejected=%d forged=%d", rejected, forged))
+		for l, c := range lens {
+			out.Stats[fmt.Sprintf("keysweep:%s:signature-bytes=%d", kt, l)] += c
+		}
+		if rejected > 0 {
+			out.Oracle(line, fmt.Sprintf("[genuine-signature-rejected] key type %s: %d of %d signatures do not verify under the key that made them; first: %s", kt, rejected, nmsg, first))
+		}
+		if forged > 0 {
+			out.Oracle(line, fmt.Sprintf("[signature-verifies-for-another-message] key type %s: %d of %d", kt, forged, nmsg))
+		}
+	}
 	nd, err := vnode.NewMem(ctx, db.WithEnabledSigning(true))
 	must(err)
 	defer nd.Close()
